@@ -570,7 +570,7 @@ def run(ctx):
     ctx.rule('R05.1', 'slot linearity: a slot taken from the heap or the parked field is refilled or parked exactly once', floor=10)
     ctx.rule('R05.2', 'emit predicates: intersection iff counter = number of input streams; symmetric difference iff odd; union always; counter starts at 1, +1 per equal-key pop', floor=8)
     ctx.rule('R05.4', 'outs discipline: cleared once per candidate key, one (index, value) entry per popped slot taken from that slot', floor=8)
-    rf = r05_2_k(ctx, pv)
+    rf = ctx.step(r05_2_k, ctx, pv)
     summaries = {}
     for name, path in OPS.items():
         f = lib.fn(path)
@@ -579,19 +579,19 @@ def run(ctx):
         for g in drain_helpers(lib, f):
             if g.path not in summaries:
                 summaries[g.path] = helper_summary(ctx, g)
-                r05_1_4(ctx, 'helper:' + g.path.rsplit('::', 1)[-1], g)
-                r05_key(ctx, 'helper:' + g.path.rsplit('::', 1)[-1], g)
+                ctx.step(r05_1_4, ctx, 'helper:' + g.path.rsplit('::', 1)[-1], g)
+                ctx.step(r05_key, ctx, 'helper:' + g.path.rsplit('::', 1)[-1], g)
     for name, path in OPS.items():
         f = lib.fn(path)
         if f is None:
             ctx.missing('R05.1', 'anchor:' + name, '%s stream not found' % name)
             continue
-        r05_1_4(ctx, name, f)
-        r05_key(ctx, name, f)
-        r05_2(ctx, name, f, pv, rf, summaries)
+        ctx.step(r05_1_4, ctx, name, f)
+        ctx.step(r05_key, ctx, name, f)
+        ctx.step(r05_2, ctx, name, f, pv, rf, summaries)
         if name != 'difference':
-            r05_4_clear(ctx, name, f)
-    r05_4_difference(ctx)
-    r05_3(ctx)
-    r05_5(ctx)
-    r05_6(ctx)
+            ctx.step(r05_4_clear, ctx, name, f)
+    ctx.step(r05_4_difference, ctx)
+    ctx.step(r05_3, ctx)
+    ctx.step(r05_5, ctx)
+    ctx.step(r05_6, ctx)
